@@ -154,7 +154,7 @@ def configs(tier):
             for asyncf in (False, True):
                 out.append(dict(kind='valuepoll', first=first, initdef=initdef, asyncf=asyncf))
     for coro in ('ok1', 'late', 'raise', 'never'):
-        for initdef in (False, True):
+        for initdef in (False, True, 'zero', 'empty', 'none'):     # absent / 'ia-default' / 0 / '' / None
             for flt in (False, True):
                 for racing in (False, True):
                     out.append(dict(kind='initasync', coro=coro, initdef=initdef, flt=flt, racing=racing))
@@ -555,6 +555,9 @@ def run_valuepoll(cfg, acc):
     return viol
 
 
+IDV = {True: 'ia-default', 'zero': 0, 'empty': '', 'none': None}
+
+
 def run_initasync(cfg, acc):
     viol = []
     res = {}
@@ -575,7 +578,7 @@ def run_initasync(cfg, acc):
                 raise Fault('coro')
             await asyncio.get_running_loop().create_future()
         inp = edzed.Input('inp', initdef='own-default')
-        kw = {'initdef': 'ia-default'} if cfg['initdef'] else {}
+        kw = {'initdef': IDV[cfg['initdef']]} if cfg['initdef'] else {}
         flt = edzed.NotIfInitialized('inp') if cfg['flt'] else None
         ia = edzed.InitAsync('ia', init_coro=[coro, 'x'], init_timeout=2,
                              on_output=edzed.Event('inp', 'put', efilter=flt), **kw)
@@ -599,7 +602,7 @@ def run_initasync(cfg, acc):
         sim.run(driver())
     acc.execs += 1
     c = cfg['coro']
-    ia_val = 'got-x' if c == 'ok1' else ('ia-default' if cfg['initdef'] else None)
+    ia_val = 'got-x' if c == 'ok1' else (IDV[cfg['initdef']] if cfg['initdef'] else None)
     sends = c == 'ok1' or cfg['initdef']
     t_exp = 1 if c in ('ok1', 'raise') else 2
     if cfg['racing']:
